@@ -155,6 +155,20 @@ def _regex_literal(fn: FunctionInfo, expr: str) -> str | None:
     return None
 
 
+def _bounds_from_above(test: ast.AST, var: str) -> bool:
+    """the guard stops the loop once `var` has grown past a bound (so adding >= 1 each round ends it); `!=`/`==` guards do not"""
+    for c in ast.walk(test):
+        if isinstance(c, ast.Compare) and len(c.ops) == 1:
+            l, r, o = unparse(c.left), unparse(c.comparators[0]), c.ops[0]
+            if l == var and isinstance(o, (ast.Lt, ast.LtE)):
+                return True
+            if r == var and isinstance(o, (ast.Gt, ast.GtE)):
+                return True
+        if isinstance(c, ast.Subscript) and isinstance(c.slice, ast.Slice) and c.slice.lower is not None and unparse(c.slice.lower) == var and c.slice.upper is None:
+            return True  # seq[var:] is falsy once var >= len(seq)
+    return False
+
+
 def variant_sets(ctx: Ctx, fn: FunctionInfo, g: CFG, loop: ast.While, consuming: set[str]) -> tuple[list[int], list[tuple[int, int, str]], list[str]]:
     kind = _recv_kind(fn)
     recv = {"scanner": "s" if fn.params() and fn.params()[0] == "s" else "self", "parser": "p" if "p" in fn.params() else "self"}.get(kind, "")
@@ -206,7 +220,7 @@ def variant_sets(ctx: Ctx, fn: FunctionInfo, g: CFG, loop: ast.While, consuming:
             tgt = unparse(st.target)
             if kind == "scanner" and tgt == f"{recv}.pos" and (const_int(st.value) or 0) >= 1:
                 V.append(nid); why.append("cursor += const")
-            if tgt in guard_names or any(tgt == gname for gname in guard_names):
+            if (tgt in guard_names or any(tgt == gname for gname in guard_names)) and _bounds_from_above(loop.test, tgt):
                 reason = _ge1(st.value, fn, loop, ctx)
                 if reason:
                     V.append(nid); why.append(f"{tgt} += {unparse(st.value)} ({reason})")
@@ -401,4 +415,108 @@ def r4_recursion(ctx: Ctx) -> None:
     ctx.floor("expansion_calls", 6)
 
 
-RULES = [r1_progress, r2_end_of_input, r3_run_sentinels, r4_recursion]
+
+def _scanner_consumers(fn: FunctionInfo, g: CFG, recv: str):
+    nexts, backups, adv_edges, peek_eof_edges = [], [], [], []
+    for nid, node in g.nodes.items():
+        if node.ast is None or node.kind == "handler":
+            continue
+        root = node.ast if node.kind != "for" else node.ast.iter  # type: ignore[attr-defined]
+        if isinstance(root, ast.With):
+            continue
+        for c in [x for x in walk_no_nested(root) if isinstance(x, ast.Call)]:
+            cn = call_name(c) or ""
+            if cn == f"{recv}.next":
+                nexts.append(nid)
+            elif cn == f"{recv}.backup":
+                backups.append(nid)
+        if node.kind == "test":
+            pol = _accept_polarity(node.ast, recv)
+            if pol:
+                adv_edges += [(nid, m, lab) for m, lab in g.succ[nid] if lab == pol]
+            t = unparse(node.ast)
+            if f"{recv}.peek()" in t and ("EOF" in t or "'\\x00'" in t):
+                # `peek() in [..., EOF]` / `peek() == EOF`: on the False edge the cursor is inside the input
+                neg = isinstance(node.ast, ast.Compare) and isinstance(node.ast.ops[0], (ast.NotIn, ast.NotEq))
+                peek_eof_edges += [(nid, m, lab) for m, lab in g.succ[nid] if lab == ("T" if neg else "F")]
+    return nexts, backups, adv_edges, peek_eof_edges
+
+
+def r5_backup_balance(ctx: Ctx) -> None:
+    """Scanner.backup() always moves the cursor back, while next() at end of input does not move it forward: every backup must undo
+    an advance that certainly happened, or the cursor drifts backwards and a surrounding loop never ends."""
+    rs = get_resolver(ctx.repo)
+    for fn in ctx.repo.all_functions():
+        if _recv_kind(fn) != "scanner" or fn.qualname == "Scanner.backup":
+            continue
+        recv = "s" if fn.params() and fn.params()[0] == "s" else "self"
+        g = CFG(fn.node)
+        nexts, backups, adv_edges, peek_edges = _scanner_consumers(fn, g, recv)
+        if not backups:
+            continue
+
+        def safe_next(n: int) -> bool:
+            # (1) every way to this next() comes through the False edge of a `peek() is EOF` test, nothing consumed in between
+            for (a, b, lab) in peek_edges:
+                others = [(a, m, l) for m, l in g.succ[a] if l != lab]
+                if g.dominated_by(n, [a]) and n not in g.reachable([m for _a, m, _l in others], blocked=[a]):
+                    between = g.reachable([b], blocked=[n])
+                    if not any(x in between for x in nexts if x != n) and not any(e[0] in between for e in adv_edges):
+                        return True
+            # (2) re-reading the character the caller consumed: `backup(); c = next()` at function entry
+            preds = [p for p, _ in g.pred[n]]
+            if len(preds) == 1 and preds[0] in backups and entry_backup(preds[0]):
+                return True
+            return False
+
+        def entry_backup(b: int) -> bool:
+            # no advance of this function can reach it: it undoes the caller's advance
+            reach_from_adv = set()
+            for n in nexts:
+                reach_from_adv |= g.reachable([m for m, _ in g.succ[n]])
+            for (_a, m, _l) in adv_edges:
+                reach_from_adv |= g.reachable([m])
+            return b not in reach_from_adv
+
+        for b in backups:
+            ctx.count("backups")
+            construct = f"{fn.where}:backup() @{unparse(g.nodes[b].ast)[:30]}"
+            if entry_backup(b):
+                # every call site must sit on a definite advance
+                callers_ok = True
+                n_sites = 0
+                for fq, sites in rs.sites.items():
+                    for sct in sites:
+                        if fn in sct.targets:
+                            n_sites += 1
+                            caller = rs.by_fq[fq]
+                            cg = CFG(caller.node)
+                            crecv = "s" if caller.params() and caller.params()[0] == "s" else "self"
+                            _n2, _b2, adv2, _p2 = _scanner_consumers(caller, cg, crecv)
+                            cn = cg.node_containing(sct.node)
+                            if not any(cg.dominated_by(cn, [a]) and cn not in cg.reachable([m for m, l in cg.succ[a] if (a, m, l) not in adv2], blocked=[a]) for (a, _m, _l) in adv2):
+                                callers_ok = False
+                ctx.check(callers_ok and n_sites > 0, construct, "undoes the caller's advance: every call site follows a successful accept")
+                continue
+            # closest dominating advance
+            cands_edges = [(a, m, l) for (a, m, l) in adv_edges if g.dominated_by(b, [a]) and b not in g.reachable([x for x, ll in g.succ[a] if (a, x, ll) != (a, m, l)], blocked=[a])]
+            cands_next = [n for n in nexts if n != b and g.dominated_by(b, [n])]
+            # the last one: a candidate that no other candidate lies after
+            def after(x: int, y: int) -> bool:  # y reachable from x
+                return y in g.reachable([m for m, _ in g.succ[x]])
+            pts = [("edge", e[0]) for e in cands_edges] + [("next", n) for n in cands_next]
+            last = None
+            for kind, n in pts:
+                if not any(after(n, m) for _k, m in pts if m != n):
+                    last = (kind, n)
+            if last is None:
+                ctx.fail(construct, "no advance of the cursor certainly precedes this backup")
+            elif last[0] == "edge":
+                ctx.ok(construct, "undoes a successful accept")
+            else:
+                ctx.check(safe_next(last[1]), construct, "undoes `next()`: that next() must be known to be inside the input (guarded by a `peek()` EOF test); "
+                          "at end of input next() returns None without advancing and the backup then moves the cursor backwards")
+    ctx.floor("backups", 3)
+
+
+RULES = [r1_progress, r2_end_of_input, r3_run_sentinels, r4_recursion, r5_backup_balance]
